@@ -187,3 +187,32 @@ Example C12_ex_repaired_rejects :
   emulate emu_ev [V_MODEL] [V_MODEL] jumbo_checking_handler (hdr ++ ev_jumbo_VYc ++ ev_plain_VYc) zero_junk = FinishedWithErrors /\
   emulate emu_ev [V_MODEL] [V_MODEL] jumbo_checking_handler (hdr ++ ev_jumbo_VYc) zero_junk = FinishedOk.
 Proof. split; [exact new_rejects_that_trace|exact new_accepts_jumbo_type_create]. Qed.
+
+(* ==== payload size guards from source (unit footprint) ==== *)
+(* The size guards of the handlers regenerated from the source (Gen/Foot_gen.v, see Properties_C19.v) against
+   RejectDefs.wrong_size, for the events whose handlers are translated: OH*, OA*, OM* (model_ovni_event), VT*
+   (nosv pre_task), 6T* (nanos6 pre_task).  PARTIAL: VYc / 6Yc (pre_type) are not covered.
+   (a) every size wrong_size lists is refused by the generated handler, whatever the rest of the emulator (the
+       oracle) does: never accepted;
+   (b) a refusal by a guard that looks only at payload_size / is_jumbo (outcome E_SIZE) happens only for a size
+       wrong_size lists: the generated guards refuse nothing else. *)
+From OV Require Emu.EmuCoreDefs Emu.FootPre Gen.Foot_gen Proofs.FootProofs.
+Theorem C12_payload_guards_from_source_partial : forall sx e,
+  let n := length (FootPre.f_payload e) in
+  ((FootPre.f_m e = DecodeDefs.M_OVNI ->
+    RejectDefs.wrong_size DecodeDefs.M_OVNI (FootPre.f_c e) (FootPre.f_v e) n (FootPre.f_jumbo e) = true ->
+    FootProofs.nok sx (Foot_gen.model_ovni_event e)) /\
+   (RejectDefs.wrong_size DecodeDefs.M_NOSV 84 (FootPre.f_v e) n (FootPre.f_jumbo e) = true -> FootProofs.nok sx (Foot_gen.nosv_pre_task e)) /\
+   (RejectDefs.wrong_size DecodeDefs.M_NANOS6 84 (FootPre.f_v e) n (FootPre.f_jumbo e) = true -> FootProofs.nok sx (Foot_gen.nanos6_pre_task e))) /\
+  ((FootPre.f_m e = DecodeDefs.M_OVNI -> FootPre.exec (Foot_gen.model_ovni_event e) sx = EmuCoreDefs.Err FootPre.E_SIZE ->
+    RejectDefs.wrong_size DecodeDefs.M_OVNI (FootPre.f_c e) (FootPre.f_v e) n (FootPre.f_jumbo e) = true) /\
+   (forall v, (v = 99 \/ v = 67) -> Foot_gen.nosv_create_task e v sx tt = EmuCoreDefs.Err FootPre.E_SIZE ->
+              RejectDefs.wrong_size DecodeDefs.M_NOSV 84 v n (FootPre.f_jumbo e) = true) /\
+   (forall v, (v = 120 \/ v = 101 \/ v = 114 \/ v = 112) -> Foot_gen.nosv_update_task_state e sx tt = EmuCoreDefs.Err FootPre.E_SIZE ->
+              RejectDefs.wrong_size DecodeDefs.M_NOSV 84 v n (FootPre.f_jumbo e) = true) /\
+   (Foot_gen.nanos6_create_task e sx tt = EmuCoreDefs.Err FootPre.E_SIZE -> RejectDefs.wrong_size DecodeDefs.M_NANOS6 84 99 n (FootPre.f_jumbo e) = true) /\
+   (forall v, (v = 120 \/ v = 101 \/ v = 114 \/ v = 112) -> Foot_gen.nanos6_update_task_state e sx tt = EmuCoreDefs.Err FootPre.E_SIZE ->
+              RejectDefs.wrong_size DecodeDefs.M_NANOS6 84 v n (FootPre.f_jumbo e) = true)).
+Proof. exact (fun sx e => conj (FootProofs.wrong_size_refused sx e) (FootProofs.size_refusal_is_wrong_size sx e)). Qed.
+Print Assumptions C12_payload_guards_from_source_partial.
+(* ==== end of block (unit footprint) ==== *)
